@@ -17,7 +17,7 @@ META = {
         '`id || ":" || version GLOB :specifier`, ":*" is appended exactly when the specifier has no colon, and the language test is '
         'an equality skipped only for NULL; R4 find_lexicons raises wn.Error when nothing matched unless the request was the bare '
         '"*" without language, wn.lexicons() converts exactly wn.Error into [], Wordnet.__init__ does not catch it, and the default '
-        'request is "*".'),
+        'request is "*". R6 the default expand set handed to find_lexicons contains only installed providers (analysis of C12-R4): a valid selection does not depend on which declared dependencies are installed.'),
     'decides': ['specifier non-interference', 'LIMIT implies recency order', 'shape of the match', 'error vs empty'],
     'not_decided': ['GLOB pattern semantics', 'ids that are prefixes of other ids (follows from the ":" separator given GLOB semantics)'],
     'assumptions': ['rowids of lexicons grow with insertion (INTEGER PRIMARY KEY without reuse below the maximum)'],
